@@ -42,7 +42,7 @@ def sh(cmd, cwd=None, timeout=3600):
 
 
 def translate():
-    """Regenerate lean/Wheatley/Generated/*.lean from /repo's current source. Returns (ok, msg)."""
+    """Regenerate lean/Wheatley/Generated/*.lean from /repo's current source. Returns (ok, msg, report)."""
     from harness import extract
     with Lock("verif.lock"):
         return extract.run(REPO, os.path.join(LEAN, "Wheatley", "Generated"))
